@@ -206,6 +206,10 @@ STRENGTHENED = {
                         "wrong instance BypassOne refuted",
     "C09-mut_C09-r6m1": "missed at first (get_result ignoring an error recorded after an earlier segment succeeded); failure mode "
                         "`latestep` for protocol scans (the row fails in a later protocol step)",
+    "C09-mut_C19-r4m2": "a cache defect (scan.protocol_time_course dropping cache=): results are right, only caching is lost; caught by "
+                        "C19, the owning check, see C19-mut_C19-r4m2",
+    "C17-mut_C17-r5m2": "NOT COVERED: sbml.read memoising the parsed document by path (functools.cache) - needs a session that rewrites "
+                        "a file between two reads of the same path; stated as a gap in claims/C17.json",
 }
 rows = []
 for d in sorted(p for p in root.iterdir() if p.is_dir()):
@@ -220,6 +224,10 @@ out = ["# Seeded changes (each confirmed in a scratch worktree; never committed 
 for r in rows:
     out.append("| " + " | ".join(str(x) for x in r) + " |")
 caught = sum(1 for r in rows if r[6] == "caught")
-out += ["", f"{caught} of {len(rows)} seeded changes are caught by the registered quick checks."]
+missed = [r for r in rows if r[6] != "caught"]
+owned = [r for r in missed if "caught by" in str(r[7])]
+out += ["", f"{caught} of {len(rows)} trials end in exit 1 with VIOLATION lines. Of the other {len(missed)}, {len(owned)} are trials of a "
+        "check against a change that another check owns and catches (see the note column); the rest are listed in DESIGN.md "
+        "section 11.7 (not judged / not covered)."]
 (root / "INDEX.md").write_text("\n".join(out) + "\n")
 print("\n".join(out[-3:]))
